@@ -294,7 +294,7 @@ PROPS = {
         "assumptions": [],
     },
     "C15": {
-        "required_theorems": ["c15_replace_consistent", "c15_preserve_sends_same", "c15_marker_top_only", "c15_blank_key_restored", "c15_edge_points_kept", "c15_import_stored", "c15_children_order", "c15_reexport",
+        "required_theorems": ["c15_replace_consistent", "c15_preserve_sends_same", "c15_marker_top_only", "c15_blank_key_restored", "c15_edge_points_kept", "c15_import_stored", "c15_children_order", "c15_reexport", "c15_export_is_own_tree", "c15_export_import_export",
                               "c15_exports_live_only", "gen_export_pinned", "gen_export_constants_pinned"],
         "n": {"quick": 500, "thorough": 4000},
         "thorough_seeds": 3,
@@ -302,21 +302,23 @@ PROPS = {
                 "child (explicit tombstone 0), an outside node; 0-3 points per node (types description/value/level/tag/nodeID/note, keys ''/0/1/a, point tombstones 0-2, origins) with 34 plain and "
                 "YAML-significant texts (colon, hash, quotes, Unicode, leading/trailing space, true/yes/No, numbers, dates, braces, brackets, backslash, * & ! % @ ` | > ? and more), 16 values incl. 1e6, 2e7, "
                 "1e15, 1e21, 1e-7, 5e-324, MaxFloat64, -0, +-Inf; node-id points referring to nodes inside, outside and to nothing; extra edge points; 1 case in 4 also draws from the 11 texts of the open "
-                "go-yaml finding. The top node or its first child is exported with client.ExportNodes and imported with client.ImportNodes under a fresh group on A or B with new or preserved ids. "
+                "go-yaml finding. The top node or its first child is exported with client.ExportNodes and imported with client.ImportNodes under a fresh group on A or B — or, 1 case in 8, at 'root' of a fresh third instance — with new or preserved ids. "
                 "Observation = the imported subtree in pre-order (depth, id, type, parent, points, edge points; ids renamed by first appearance; times/origins not compared; tombstone-0 edge points = none). "
                 "Oracle = the exported tree of the source state, renamed, marker on the top description; distinct = distinct case line",
         "trusted": ["github.com/goccy/go-yaml v1.11.2 Marshal/Unmarshal of the export structure (parameter: the model hands the tree from export to import; every case goes through the real YAML text)",
                     "github.com/google/uuid: new ids are pairwise different and not blank (hypotheses hinj, hne of c15_replace_consistent)", "modernc SQLite as in C05", "embedded nats-server"],
         "modelled": ["client/node.go ExportNodes/exportNodesHelper, ImportNodes, checkIDs, ReplaceIDs, SendNode modelled by hand on the store model (Siot/Model/Export.lean); a tree is a pre-order list with depths; shape re-extracted every run (gen_export_pinned)",
-                     "import under 'root' (replacing the root node) is not modelled and not generated", "time stamps (not exported) and origins are outside the comparison"],
+                     "import under 'root' (replacing the root node) is generated (1 case in 8, on a fresh instance) and judged against the model's import under a group: the old root must be gone and the imported tree be the only root", "time stamps (not exported) and origins are outside the comparison"],
         "assumptions": ["c15_import_stored: the nodes are in the form exportNodesHelper writes (stored rows, key '0' blanked), unknown to the target store, no mirror inside the tree, parent not 'root'/'none'"],
         "partial": "proved: the tree transformations (id replacement, check, marker, noise reduction, liveness of exported nodes); on the store model, for trees without mirrors: sending the prepared nodes leaves exactly one new edge per node "
                    "in file order and the record read back for every imported node is the node of the file, deletion mark included (c15_import_stored, c15_children_order); exporting any imported node again returns the pre-order list the file's own "
-                   "parent pointers describe (c15_reexport) — which is the file itself whenever the file is the traversal of its own tree, a decidable property the driver evaluates on every exported file (SelfRebuilding) instead of a theorem about exportFrom. "
-                   "Trees that contain a mirror are covered by the correspondence run only. The YAML text is not modelled.",
+                   "parent pointers describe (c15_reexport); on every store whose non-deleted edges form a forest (no mirrors, no cycle) the exported file IS the traversal of its own tree (c15_export_is_own_tree), so that export, import with the ids kept, "
+                   "export again returns the very same file (c15_export_import_export). Trees that contain a mirror are covered by the correspondence run only (the driver evaluates SelfRebuilding on every exported file, and the import target 'root' is "
+                   "exercised on a fresh instance). With new ids the last step relies on c15_replace_consistent plus the correspondence run. The YAML text is not modelled.",
     },
     "C02": {
-        "required_theorems": ["c02_no_write_lost", "c02_points_converge", "c02_exchange_converges_on_stores", "c02_equal_hash_is_skipped", "gen_sync_pinned"],
+        "required_theorems": ["c02_no_write_lost", "c02_points_converge", "c02_exchange_converges_on_stores", "c02_equal_hash_is_skipped", "c02_agreed_node_is_quiet", "gen_sync_pinned",
+                              "c02_loop_catch_up_while_connected", "c02_loop_forward_iff_connected", "c02_loop_redial_pending", "gen_syncloop_pinned"],
         "n": {"quick": 300, "thorough": 2000},
         "thorough_seeds": 3,
         "rule": "two in-process instances (downstream A with root RA, upstream B with root RB holding RA after a first catch-up); per case a group G under RA: a shared base of 1-4 nodes with points built on A "
@@ -328,11 +330,11 @@ PROPS = {
                 "sets of nodes and every identity written shows the newest write; distinct = distinct case line; plus end-to-end cases (3 quick, 25 thorough): the REAL SyncClient under a Manager on a second pair of instances (period 1 s, real-time forwarding, NATS reconnects), with the upstream instance stopped and started again on the same file and ports / the sync node disabled and enabled / no interruption, writes and node creations on both sides around it, then a wait (at most 30 s) for both sides to show the same subtree; judged by the specification only",
         "trusted": ["embedded nats-server / nats.go request-reply", "modernc SQLite as in C05", "CRC-32 (modelled bit-serially): the model's hash decisions are the implementation's as long as no 32-bit collision happens in one of the two and not the other"],
         "modelled": ["client/sync.go syncNode, sendNodesRemote, sendNodesLocal and client.SendNode modelled by hand on two copies of the store model (Siot/Model/Sync.lean); shape re-extracted every run (gen_sync_pinned)",
-                     "the Run loop of the sync client — real-time forwarding in both directions, (re)connection, the period ticker, discovery of new upstream nodes through up.<root>.*.* — is NOT modelled: link loss and recovery are rendered as 'no pass happens' / 'a pass happens'",
+                     "the select loop of SyncClient.Run with connect / disconnect is modelled as a state machine over link reports, timer firings, local writes and configuration changes (Siot/Model/SyncLoop.lean: the variables connected, syncTicker, initialSub, ncRemote, connectTimer; shape re-extracted every run, gen_syncloop_pinned); what the NATS library does between the callbacks, the subscriptions that carry upstream traffic down and the discovery of new upstream nodes through up.<root>.*.* are NOT modelled — the end-to-end cases run them",
                      "time.Now() readings inside a pass are a parameter (wall : Int -> Int) of the model and of the theorems",
                      "the syncCount bookkeeping points the client writes to its own node are ignored"],
         "assumptions": [],
-        "partial": "proved: a pass never loses or reverts a write on either side (any tree, any hashes), and where the pass performs the exchange for a node, both stores hold the newest point per identity afterwards (on the store model itself). Not proved, and false in general (two open findings): that the hash comparison reaches every node that differs, i.e. convergence of whole trees; real-time forwarding is outside the model",
+        "partial": "proved: a pass never loses or reverts a write on either side (any tree, any hashes), and where the pass performs the exchange for a node, both stores hold the newest point per identity afterwards (on the store model itself). Not proved, and false in general (two open findings): that the hash comparison reaches every node that differs, i.e. convergence of whole trees. The loop around the pass is proved to run a pass at every (re)connection and periodically while the link is reported up, to forward local writes exactly then, and to keep a reconnection pending (c02_loop_*); the downward real-time path is covered by the end-to-end cases only",
     },
     "C04": {
         "required_theorems": ["c04_recovered_consistent", "c04_all_or_nothing", "c04_acked_not_lost", "c04_batch_present", "gen_tx_pinned", "gen_pragmas_pinned"],
